@@ -507,6 +507,19 @@ func (w *cwalk) stmts(list []ast.Stmt, top bool) {
 				if s.Init != nil && len(w.callsIn(s.Init)) > 0 {
 					w.fail(s, "queue call in an if-initialiser")
 				}
+				// a `continue` / `break` / `goto` here would let the loop skip queue calls that follow
+				// (e.g. the throttle `waitUntilSizeIsBelow`): the extracted sequence would no longer be the program
+				if !top {
+					ast.Inspect(s, func(x ast.Node) bool {
+						if _, ok := x.(*ast.FuncLit); ok {
+							return false
+						}
+						if b, ok := x.(*ast.BranchStmt); ok {
+							w.fail(b, "branch statement inside a loop that drives the segment queue")
+						}
+						return true
+					})
+				}
 				continue // e.g. `if err != nil { return err }`
 			}
 			if s.Else != nil || s.Init != nil {
